@@ -65,8 +65,10 @@ Ref(samples, dflt, cut) ==
                     LET a == Corner(q, EA(e))
                         va == cv[EA(e) + 1]
                         vb == cv[EB(e) + 1]
-                        \* 24 t; exact by the value alphabet (checked by FieldOK)
-                        t24 == (U * (cut - va)) \div (vb - va)
+                        \* 24 t; exact by the value alphabet (checked by FieldOK).  With a
+                        \* broken table an edge may join two corners of equal value: the
+                        \* operator stays total (MarchTable reports the row).
+                        t24 == IF vb = va THEN 0 ELSE (U * (cut - va)) \div (vb - va)
                     IN VAdd(VScale(U, a), VScale(t24, VSub(CP(EB(e)), CP(EA(e)))))
                 tt == TrisT[kk]
             IN {Canon(<<vert(tt[i][1]), vert(tt[i][2]), vert(tt[i][3])>>) : i \in DOMAIN tt}
